@@ -335,8 +335,15 @@ namespace bloch::cli {
                                       << " | " << std::setw(5) << "prob"
                                       << "\n";
                             std::cout << std::string(outcomeWidth, '-') << "-+-------+-----\n";
+                            // A variable can be recorded several times per shot (loop- or
+                            // block-scoped tracked qubits): probabilities are relative to the
+                            // number of outcomes recorded for this variable, not to the shots.
+                            long long totalForVariable = 0;
+                            for (const auto& p : vals) totalForVariable += p.second;
                             for (auto& p : vals) {
-                                double prob = static_cast<double>(p.second) / shots;
+                                double prob = totalForVariable > 0
+                                                  ? static_cast<double>(p.second) / totalForVariable
+                                                  : 0.0;
                                 std::cout << std::left << std::setw(static_cast<int>(outcomeWidth))
                                           << p.first << " | " << std::right << std::setw(5)
                                           << p.second << " | " << std::setw(5) << prob << "\n";
